@@ -244,6 +244,8 @@ func NewDialogueRunner(storer variable.Storer, rngSeed string, readers ...io.Rea
 		commandStorer:   newCommandStorer(),
 		visitedNodes:    map[string]int{},
 		currentNode:     firstNode.Title(),
+		// the first node is entered here: a snapshot taken before any jump holds the variables the storer came with
+		variableSnapshot: storer.GetValues(),
 	}
 
 	functionStorer := newFunctionStorer(rng)
